@@ -405,7 +405,9 @@ func (ex *Executor) runPath(st *State) {
 				}
 				ex.endPath(st, e.kind, e.msg)
 			default:
-				panic(r)
+				// an engine-level failure (unsupported construct reached through an unexpected value shape):
+				// the path is inconclusive, never a success
+				ex.endPath(st, "abort", fmt.Sprintf("engine error: %v", r))
 			}
 		}
 	}()
@@ -1673,6 +1675,8 @@ func (ex *Executor) SetupRedirects(pkg *ssa.Package) {
 		"(*sync.Once).Do":   "verifModelOnceDo",
 		"errors.Is":         "verifModelErrorsIs",
 		"(*bytes.Reader).WriteTo": "verifModelReaderWriteTo",
+		"os.Stat":                 "verifModelStat",
+		"(*os.File).Stat":         "verifModelFStat",
 		"(*sync.Pool).Get":        "verifModelPoolGet",
 		"(*sync.Pool).Put":        "verifModelPoolPut",
 	}
